@@ -319,4 +319,15 @@ def _nd_own(ctx, R, roles, T):
                     "the early payloads collected in `%s` can be dropped: a path from the OKAY to the return avoids appending them to the receive buffer" % accname, fl.loc(an.ast))
             R.check(not any(g.in_cycle(x) for x in flushes) and not any(y in g.reach([x], exc=False) for x in flushes for y in flushes), "ND-own", sub + "|staged-once",
                     "collected payloads are appended once", "the collected early payloads can be appended twice", fl.loc(an.ast))
+    # "never substitutes a timeout for a failure the device already reported": the time allowed for the OKAY starts when the data has been sent -
+    # a clock started before the send charges the (possibly long) write to the wait, and the check only runs after an early report has come in
+    from .c11 import deadline_tests
+    for n, c in reads:
+        if not n.loops or not snd:
+            continue
+        for (tn, _bound, start, _g) in deadline_tests(ctx, fl, n.loops[-1]):
+            if isinstance(start, str) and start.startswith("start@"):
+                sn_ = g.nodes[int(start[6:])]
+                R.check(g.dominates([snd[0][0]], sn_), "ND-own", q + "|clock-after-send", "the wait for the OKAY is timed from the moment the data was sent",
+                        "the deadline for the OKAY is measured from before the data is sent: a slow write eats the time allowed for the device's answer", fl.loc(sn_.ast))
     # the other awaiting sites, for the record (the rule is deliberately not applied there, see DESIGN section 5 C10)
